@@ -21,6 +21,7 @@ from vp import gen, probe, propmodel, refmodels as rm
 from vp import defaults
 from vp import reuse
 from vp import forms as argforms
+from vp import corners
 
 RULE = ('seeded generator: tilt angles giving 0.01 px .. more than the output size, circular/irregular/segmented apertures '
         '4..20 per side with per-segment tilts, square and non-square du and dx, oversample 1..4, 1..4 tilt elements in '
@@ -29,7 +30,7 @@ RULE = ('seeded generator: tilt angles giving 0.01 px .. more than the output si
 ASSUMPTIONS = ['numerically solved dispersion/trace orders are compared to 1e-6 relative',
                'segments whose pixels are collinear (rank-deficient tip/tilt fit) are skipped']
 PLAN = {'quick': {'gen': 8}, 'thorough': {'gen': 16, 'tests': 1}}
-REQUIRED_BUCKETS = ['defaults', 'reuse', 'forms', 'tilt:subpixel', 'tilt:pixels', 'tilt:beyond-output', 'du:aniso', 'du:iso', 'os>1', 'segmented',
+REQUIRED_BUCKETS = ['defaults', 'corners', 'reuse', 'forms', 'tilt:subpixel', 'tilt:pixels', 'tilt:beyond-output', 'du:aniso', 'du:iso', 'os>1', 'segmented',
                     'rep:ramp', 'rep:plane', 'rep:wavefront', 'rep:fit', 'multi-tilt', 'scan', 'disp:propagated', 'sequence', 'disp:order1', 'disp:order>1',
                     'refit-after-update', 'refit-segmented', 'fit:flat-segments', 'fit:fill-outside-mask', 'opd:not-c-contiguous', 'fit:array-dtypes', 'scalars:float32']
 REQUIRED_ANCHORS = ['anchor:Tilt.shift', 'anchor:Field.shift', 'anchor:fit_tilt', 'anchor:ptt_vector',
@@ -146,6 +147,7 @@ def workload(ctx, lentil):
     defaults.run(ctx, lentil, 'C04', 'rep=model')
     reuse.run(ctx, lentil, 'C04', 'rep=model')
     argforms.run(ctx, lentil, 'C04', 'rep=model')
+    corners.run(ctx, lentil, 'C04', 'rep=model')
     rng = ctx.rng
     n = ctx.count(70, 500)
     hi = 18 if ctx.tier == 'quick' else 32
